@@ -12,6 +12,17 @@ or the error kind (null-check errors and `drop_rows` errors included). The imple
 row-id column (`rid`) that every part carries. `na_action` is passed as a string, as an `NAAction` member, or as an invalid
 string (error branch of `NAAction(...)`).
 
+Infinite cells: a sub-stream puts +inf / -inf into about a tenth of the numeric cells (not null by the independent
+definition), with factors that hold BOTH signs in one row of a multi-column value (`np.column_stack([x, -x])`,
+`poly(x, 2, raw=True)`, frames, dicts): such rows must be kept, must not be reported, and raise must not raise.
+
+The caller's set object: every call answer (model and implementation) carries the content of the set AFTER the call,
+also when the call raised (`Model.Nulls.setAfterCall`). Shared-set histories (`kind = "sethist"`): ONE set object is
+handed as `drop_rows` to 2-3 calls through different entry points, the first with `na_action='raise'` on data with nulls
+(it raises and must leave the set as it was); the later calls (ignore / drop / raise, on the same data or on the data with
+the nulls filled in) are observed on the shared object AND with a fresh copy of what the object held before them
+(`Model.Nulls.runSetHistory`).
+
 Unit stream (`kind = "unit"`): `null_handling.find_nulls(value)` / `null_handling.drop_rows(value, indices)` called
 directly on a generated value of EVERY type they dispatch on (None, str, int, float, bool, numpy scalars, list, dict,
 narwhals Series, pandas Series / DataFrame, 0/1/2/3-d ndarray, csc / csr sparse matrix, tuple / object; bare or wrapped in
@@ -59,6 +70,10 @@ REQUIRED_THEOREMS = [
     "ignore_keeps",
     "uncheckable_factor_raises",
     "null_check_error_iff",
+    "raise_and_ignore_leave_caller_set",
+    "caller_set_after_success",
+    "drop_failure_adds_only_null_rows",
+    "shared_set_survives_non_drop_call",
     "encoders_consistent",
     "per_part_calls",
     "entry_points_forward",
@@ -91,6 +106,10 @@ TRUSTED = [
     "per call, theorem materializer_reuse); transform/encoder state carried by a replayed spec is not modelled (C04/C18); a call "
     "that raises for reasons other than nulls (a contrast whose reference level does not exist, a 3-d array) is made, and the "
     "calls after it on the same object are compared with calls on new objects — the failing call itself is not predicted",
+    "the caller's set after a DROP call whose null check raised holds what the factors checked before the failing one "
+    "added: that order is the iteration order of a Python set, so this content is bounded by the oracle (caller's rows plus "
+    "null rows) and, in shared-set histories, the model continues from the observed content; after every other outcome the "
+    "set is predicted exactly",
     "not modelled: drop positions that are negative, frames whose transforms return a Series with an index different from "
     "the data's, lists / arrays whose length differs from the number of rows (pandas broadcasts some of them)",
 ]
@@ -127,6 +146,11 @@ RULE = (
     "about a quarter of the calls RAISE after their factors were evaluated (unknown contrast reference level, 3-d array, "
     "unknown object, nulls under raise) and the later calls reuse their factors; every call observed on the reused object and "
     "on a new one. "
+    "PLUS an infinite-cells sub-stream (a tenth of the numeric cells +-inf — not null; column_stack([x, -x]), raw poly, frames "
+    "and dicts holding both signs in one row; also in the unit stream and in a fifth of the histories). "
+    "PLUS shared-set histories: ONE caller set object handed to 2-3 calls through different entry points, first a raising "
+    "raise-policy call, then ignore / drop / raise calls on the same or the null-free data; every call observed on the shared "
+    "object and with a fresh copy of its content; the set is read after EVERY call, also after a raising one. "
     "PLUS unit cases: find_nulls / drop_rows called directly on every value type (bare / FactorValues-wrapped), indices "
     "sorted / unsorted / repeated / tuple / out of range / empty. "
     "non-trivial = drop policy, at least one row removed and one kept (unit: a value with rows and a non-empty index list "
@@ -170,6 +194,9 @@ def KONST(x):
 CTX = {"np": numpy, "FR": FR, "NAN": float("nan"), "Opaque": Opaque, "CAT": CAT, "KONST": KONST, "NONE": lambda: None}
 
 
+INF_STREAM = [False]  # (set while a case of the infinite-cells sub-stream is being generated)
+
+
 def gen_value_term(rng):
     """a Python factor whose VALUE is not a plain column: constant, list, array of any rank, data frame, dict, object"""
     v, w = rng.sample(NUM, 2)
@@ -195,6 +222,18 @@ def gen_value_term(rng):
     return rng.choice(pool)
 
 
+def gen_inf_term(rng):
+    """multi-column (and single-column) values in which an infinite cell of the data shows up with BOTH signs in one row:
+    the row holds no null (a row sum would be NaN)"""
+    v, w = rng.sample(NUM, 2)
+    return rng.choice([
+        f"{{np.column_stack([{v}.to_numpy(), -{v}.to_numpy()])}}", f"{{np.column_stack([{v}.to_numpy(), -{v}.to_numpy(), {w}.to_numpy()])}}",
+        f"poly({v}, 2, raw=True)", f"poly({v}, 3, raw=True)", f"{{FR({v}, -{v})}}", f"{{FR({v}, {w}, -{v})}}",
+        f"{{dict(u={v}, w=-{v})}}", f"{{dict(u={v}.to_numpy(), w=dict(p=(-{v}).to_list()))}}",
+        f"{{-{v}}}", f"{{{v}.to_numpy()}}", f"{{(-{v}).to_list()}}", v, f"I(-{v})",
+    ])
+
+
 FAULTS = ["C(A, contr.treatment(base='w'))", "C(B, contr.treatment(base='w'))", "{np.zeros((len(a), 1, 1))}", "{Opaque()}"]
 
 
@@ -214,11 +253,23 @@ def gen_index(rng, n):
     return {"kind": kind, "labels": labels}
 
 
-def gen_data(rng, n):
+def num(x):
+    """a numeric cell of the generated data: None -> NaN, "inf" / "-inf" -> the infinities, else the number"""
+    if x is None:
+        return numpy.nan
+    if isinstance(x, str):
+        return float(x)
+    return float(x)
+
+
+def gen_data(rng, n, infs=False):
+    """`infs`: about a tenth of the numeric cells are +inf / -inf — not null, whatever is in the same row"""
     pnull = rng.choice([0.0, 0.1, 0.25, 0.5])
     data = {}
     for v in NUM:
         data[v] = [None if rng.random() < pnull else rng.randint(1, 9) for _ in range(n)]
+        if infs:
+            data[v] = [rng.choice(["inf", "-inf"]) if x is not None and rng.random() < 0.12 else x for x in data[v]]
     data["k"] = [None if rng.random() < pnull / 2 else rng.randint(0, 5) for _ in range(n)]
     data["A"] = [None if rng.random() < pnull else rng.choice(["x", "y", "z"]) for _ in range(n)]
     data["B"] = [None if rng.random() < pnull else rng.choice(["u", "v"]) for _ in range(n)]
@@ -235,6 +286,8 @@ def gen_term(rng, allow_stateful=True):
     ]
     if allow_stateful:
         pool += [f"center({v})", f"scale({v})", f"poly({v}, 2)", f"bs({v}, df=3)"]
+    if INF_STREAM[0] and rng.random() < 0.6:
+        return gen_inf_term(rng)
     if rng.random() < 0.3:
         return gen_value_term(rng)
     return rng.choice(pool)
@@ -310,18 +363,26 @@ def gen_history(rng, tier):
             output=rng.choice(outs),
         ))
     # how THE object is obtained: the materializer class called on the data, or `ModelSpec.get_materializer(data)`
-    return dict(kind="history", nrows=n, data=gen_data(rng, n), index=index, frame=frame, mat=mat, calls=calls,
+    return dict(kind="history", nrows=n, data=gen_data(rng, n, infs=rng.random() < 0.2), index=index, frame=frame, mat=mat, calls=calls,
                 obj=rng.choice(["class", "class", "spec"]))
 
 
-def gen_case(rng, tier, malformed=False):
+def gen_case(rng, tier, malformed=False, infs=False):
+    INF_STREAM[0] = infs
+    try:
+        return _gen_case(rng, tier, malformed, infs)
+    finally:
+        INF_STREAM[0] = False
+
+
+def _gen_case(rng, tier, malformed=False, infs=False):
     n = rng.randint(1, 12) if rng.random() < 0.85 else rng.randint(1, 4)
     formula, nparts = gen_formula(rng)
     while malformed and formula.endswith("~ 0"):  # (an empty part with more drop positions than rows: not modelled)
         formula, nparts = gen_formula(rng)
     r = rng.random()
     frame = ("arrow" if r < 0.12 else "dict" if r < 0.17 else "recarray" if r < 0.2 else "nwframe" if r < 0.25 else "pandas")
-    data = gen_data(rng, n)
+    data = gen_data(rng, n, infs)
     if frame == "dict" and n == 1 and not any(data[v][0] is None for v in ("k", "A", "B")):
         frame = "scalars"
     index = gen_index(rng, n) if frame in ("pandas", "nwframe") else {"kind": "default", "labels": list(range(n))}
@@ -366,32 +427,80 @@ def gen_case(rng, tier, malformed=False):
     )
 
 
+def gen_sethist(rng, tier):
+    """ONE caller set object handed, as drop_rows, to 2-3 calls through different entry points; the first call has the
+    raise policy on data with nulls (it raises: the set must stay as it was); the later calls — ignore, drop, raise, on
+    the same data or on the data with the nulls filled in — must treat the set as the caller wrote it"""
+    n = rng.randint(2, 10)
+    data = gen_data(rng, n, infs=rng.random() < 0.2)
+    while not any(x is None for v in NUM for x in data[v]):
+        data = gen_data(rng, n)
+    index = gen_index(rng, n)
+    original = sorted(set(rng.randrange(n) for _ in range(rng.randint(0, max(1, n // 3)))))
+    withnull = [v for v in NUM if any(x is None for x in data[v])]
+    calls = []
+    for i in range(rng.choice([2, 3, 3])):
+        formula, nparts = gen_formula(rng)
+        while formula.endswith("~ 0"):
+            formula, nparts = gen_formula(rng)
+        if i == 0:
+            formula = formula + " + " + rng.choice(withnull)  # a factor that has nulls: the raise policy raises
+        structured = nparts > 1
+        entry = rng.choice(["sugar", "formula", "modelspecs", "materializer", "nonjoint"] if structured
+                           else ["sugar", "formula", "modelspec", "modelspec", "materializer"])
+        mat = rng.choice(["pandas", "pandas", "narwhals"])
+        outs = ["pandas", "numpy", "sparse"] + (["narwhals"] if mat == "narwhals" and entry != "nonjoint" else [])
+        calls.append(dict(
+            formula=formula, entry=entry, mat=mat, output=rng.choice(outs), overrides=rng.random() < 0.5,
+            policy="raise" if i == 0 else rng.choice(["drop", "drop", "ignore", "raise"]),
+            na=rng.choice(["text", "member"]),
+            data="same" if i == 0 else rng.choice(["same", "same", "nullfree"]),
+        ))
+    return dict(kind="sethist", nrows=n, data=data, index=index, original=original, calls=calls)
+
+
+def sethist_call(c, k, caller):
+    """call `k` of a shared-set history as a single-call case whose caller set holds `caller`"""
+    data = c["data"]
+    if k["data"] == "nullfree":
+        data = {name: [({"A": "x", "B": "u"}.get(name, 1) if x is None else x) for x in col] for name, col in data.items()}
+    return dict(kind="call", nrows=c["nrows"], data=data, index=c["index"], frame="pandas", mat=k["mat"],
+                formula=k["formula"], policy=k["policy"], na=k["na"], bad_na="", caller=caller, output=k["output"],
+                entry=k["entry"], overrides=k["overrides"], fitted=False)
+
+
 UNIT_TYPES = ["none", "str", "int", "float", "nan", "bool", "np_float64", "np_nan", "np_float32", "np_int64", "np_bool",
               "list", "list", "dict", "dict", "nw", "nw_arrow", "series", "series", "series_idx", "frame", "array0",
               "array0_nan", "array1", "array1", "array2", "array2", "array3", "csc", "csr", "tuple", "object"]
 
 
-def gen_cells(rng, n, pnull):
-    """cell `i` holds the number `i` (so that what survives a removal is visible), or None"""
-    return [None if rng.random() < pnull else i for i in range(n)]
+def gen_cells(rng, n, pnull, pinf=0.0):
+    """cell `i` holds the number `i` (so that what survives a removal is visible), None, or (pinf) an infinity"""
+    return [None if rng.random() < pnull else rng.choice(["inf", "-inf"]) if rng.random() < pinf else i for i in range(n)]
 
 
 def gen_unit_value(rng, depth=0, nulls=True):
     t = rng.choice(UNIT_TYPES)
     n = rng.randint(0, 7)
     pnull = rng.choice([0.0, 0.2, 0.5]) if nulls else 0.0
+    pinf = rng.choice([0.0, 0.1, 0.25]) if nulls else 0.0  # (find_nulls cases only: infinite cells are not null)
     if t in ("list", "nw", "nw_arrow", "series", "series_idx", "array1"):
-        return dict(t=t, cells=gen_cells(rng, n, pnull))
+        return dict(t=t, cells=gen_cells(rng, n, pnull, pinf))
     if t in ("frame", "array2", "csc", "csr"):
         k = rng.randint(0, 3)
-        return dict(t=t, n=n, cols=[gen_cells(rng, n, pnull) for _ in range(k)])
+        cols = [gen_cells(rng, n, pnull, pinf) for _ in range(k)]
+        if pinf and k >= 2:
+            for i in range(n):  # +inf and -inf in ONE row (the row sum is NaN, the row holds no null)
+                if rng.random() < 0.3:
+                    cols[0][i], cols[1][i] = rng.choice([("inf", "-inf"), ("-inf", "inf")])
+        return dict(t=t, n=n, cols=cols)
     if t == "array3":
         return dict(t=t, n=n)
     if t == "dict":
         items = []
         for j in range(rng.randint(0, 3)):
             key = rng.choice(["u", "v", "__h", "w"]) + str(j)
-            sub = gen_unit_value(rng, depth + 1, nulls) if depth < 2 else dict(t="list", cells=gen_cells(rng, n, pnull))
+            sub = gen_unit_value(rng, depth + 1, nulls) if depth < 2 else dict(t="list", cells=gen_cells(rng, n, pnull, pinf))
             items.append([key, sub])
         return dict(t=t, items=items)
     return dict(t=t)
@@ -426,13 +535,19 @@ def cases(rng, tier):
         yield gen_case(rng, tier)
     for _ in range(max(6, n // 40)):
         yield gen_case(rng, tier, malformed=True)
+    for _ in range({"quick": 220, "thorough": 1500, "search": 60}[tier]):
+        yield gen_case(rng, tier, infs=True)  # infinite cells (not null), both signs in one row of multi-column values
     for _ in range({"quick": 110, "thorough": 1200, "search": 60}[tier]):
         yield gen_history(rng, tier)
+    for _ in range({"quick": 140, "thorough": 1200, "search": 60}[tier]):
+        yield gen_sethist(rng, tier)
     for _ in range({"quick": 500, "thorough": 4000, "search": 120}[tier]):
         yield gen_unit(rng, tier)
 
 
 def describe(c):
+    if c["kind"] == "sethist":
+        return "sharedset[" + "/".join(f"{k['entry']}:{k['policy']}" for k in c["calls"]) + "]"
     if c["kind"] == "unit":
         return f"unit:{c['op']}:{c['value']['t']}{'(wrapped)' if c['wrap'] else ''}"
     if c["kind"] == "history":
@@ -460,6 +575,8 @@ def _unit_has_null(v):
 
 
 def nontrivial(c):
+    if c["kind"] == "sethist":
+        return True
     if c["kind"] == "unit":
         if c["op"] == "drop_rows":
             return _unit_has_rows(c["value"]) and bool(c["indices"])
@@ -485,14 +602,14 @@ def make_frame(c):
 
         cols = {"rid": pa.array([float(i) for i in range(n)], type=pa.float64())}
         for v in NUM:
-            cols[v] = pa.array([None if x is None else float(x) for x in d[v]], type=pa.float64())
+            cols[v] = pa.array([None if x is None else num(x) for x in d[v]], type=pa.float64())
         cols["k"] = pa.array(d["k"], type=pa.int64())
         cols["A"] = pa.array(d["A"], type=pa.string())
         cols["B"] = pa.array(d["B"], type=pa.string())
         return pa.table(cols)
     cols = {"rid": numpy.arange(n, dtype=float)}
     for v in NUM:
-        cols[v] = numpy.array([numpy.nan if x is None else float(x) for x in d[v]], dtype=float)
+        cols[v] = numpy.array([num(x) for x in d[v]], dtype=float)
     cols["k"] = pandas.array(d["k"], dtype="Int64")
     cols["A"] = pandas.Series(d["A"], dtype=object)  # object dtype on purpose (pandas 3 `str` dtype is D8's business)
     cols["B"] = pandas.Categorical(d["B"], categories=["u", "v"])
@@ -856,16 +973,19 @@ def is_stateless(c):
     return not any(s in c["formula"] for s in STATEFUL)
 
 
-def observe_call(c, df, probes, runner, sub=True, rerun=None, keep=None):
+def observe_call(c, df, probes, runner, sub=True, rerun=None, keep=None, shared=None):
     """ONE real call — `runner(d)` makes it with `d` as the caller's set object (None: no drop_rows argument) — and what
     it shows: the error kind, or per part the rows / index / rid column, the caller's set afterwards, and (sub) whether
     every part equals the matrix built from the sub-frame of the rows that must survive. `keep`: dict that receives the
     raw result and arrays (not part of the observation)."""
     out = {}
-    d = None if c["caller"] is None else set(c["caller"])
+    # `shared`: the caller's set OBJECT of a shared-set history (it already holds c["caller"]); else a fresh set
+    d = shared if shared is not None else (None if c["caller"] is None else set(c["caller"]))
     try:
         res, mats = runner(d)
     except Exception as e:
+        # what the call left in the caller's set although it raised
+        out["set_after"] = None if d is None else sorted(int(x) for x in d)
         out["error"] = err_kind(e)
         out["msg"] = type(e).__name__ + ": " + str(e)[:160]
         # (a null that is found — in a row or in a constant — and an invalid policy are never "clean" failures)
@@ -888,6 +1008,7 @@ def observe_call(c, df, probes, runner, sub=True, rerun=None, keep=None):
     out["parts"] = parts
     out["mats"] = mats
     out["final"] = None if d is None else sorted(int(x) for x in d)
+    out["set_after"] = out["final"]
     # --- metamorphic check: the matrix of the sub-frame of the rows that must survive
     out["sub"] = None
     if (sub and c["policy"] == "drop" and c.get("na", "text") != "bad" and c["entry"] != "nonjoint"
@@ -903,7 +1024,8 @@ def observe_call(c, df, probes, runner, sub=True, rerun=None, keep=None):
                 if n2 != names:
                     ok, why = False, f"part {j}: columns {names} vs sub-frame {n2}"
                     break
-                if a2.shape != arr.shape or not numpy.array_equal(a2.astype(float), arr.astype(float)):
+                # (equal_nan: a dummy column times an infinite cell is 0 * inf = NaN in both matrices)
+                if a2.shape != arr.shape or not numpy.array_equal(a2.astype(float), arr.astype(float), equal_nan=True):
                     ok, why = False, f"part {j}: values differ from the matrix of the sub-frame of rows {K}"
                     break
             out["sub"] = {"ok": bool(ok), "why": why}
@@ -912,7 +1034,37 @@ def observe_call(c, df, probes, runner, sub=True, rerun=None, keep=None):
     return out
 
 
+def impl_sethist(c):
+    shared = set(c["original"])  # THE object: handed to every call of the history as drop_rows
+    out = {"before": [], "calls": [], "fresh": []}
+    for k in c["calls"]:
+        before = sorted(int(x) for x in shared)
+        ci = sethist_call(c, k, before)
+        df = make_frame(ci)
+        try:
+            if ci["entry"] == "nonjoint":
+                pr = {"pandas": probe(ci, df, "pandas"), "narwhals": probe(ci, df, "narwhals")}
+            else:
+                pr = {ci["mat"]: probe(ci, df, ci["mat"])}
+        except Exception as e:
+            return {"probe_error": type(e).__name__ + ": " + str(e)[:160]}
+        runner = lambda d, ci=ci, df=df: run_entry(ci, df, d)
+        obs = dict(observe_call(ci, df, pr, runner, sub=False, shared=shared), probe=pr)
+        # the same call given a fresh copy of what the object held before it
+        fresh = dict(observe_call(ci, df, pr, runner, sub=False), probe=pr)
+        out["before"].append(before)
+        out["calls"].append(obs)
+        out["fresh"].append(fresh)
+    return out
+
+
+def sethist_calls(c, o):
+    return [(i, sethist_call(c, k, o["before"][i]), o["calls"][i]) for i, k in enumerate(c["calls"])]
+
+
 def impl(c):
+    if c["kind"] == "sethist":
+        return impl_sethist(c)
     if c["kind"] == "unit":
         return impl_unit(c)
     if c["kind"] == "history":
@@ -1014,7 +1166,7 @@ ROWS_TYPES = ("list", "nw", "series", "array1", "array2", "arrayN", "sparse")
 
 def _fl(cells):
     """cell `i` holds the number i + 1 (never 0: a sparse matrix does not store zeros), None cells are NaN"""
-    return [numpy.nan if x is None else float(x + 1) for x in cells]
+    return [numpy.nan if x is None else float(x) if isinstance(x, str) else float(x + 1) for x in cells]
 
 
 def build_unit_value(v, labels=None):
@@ -1031,13 +1183,14 @@ def build_unit_value(v, labels=None):
     if t == "object":
         return Opaque()
     if t == "list":
-        return [None if x is None else float(x + 1) for x in v["cells"]]
+        return [None if x is None else float(x) if isinstance(x, str) else float(x + 1) for x in v["cells"]]
     if t == "nw":
         return nw.from_native(pandas.Series(_fl(v["cells"]), dtype=float, name="x"), series_only=True)
     if t == "nw_arrow":
         import pyarrow as pa
 
-        arr = pa.chunked_array([pa.array([None if x is None else float(x + 1) for x in v["cells"]], type=pa.float64())])
+        arr = pa.chunked_array([pa.array([None if x is None else float(x) if isinstance(x, str) else float(x + 1)
+                                          for x in v["cells"]], type=pa.float64())])
         return nw.from_native(arr, series_only=True).alias("x")
     if t == "series":
         return pandas.Series(_fl(v["cells"]), dtype=float)
@@ -1207,6 +1360,19 @@ def request(c, o):
             return dict(op="find_nulls", variant=VARIANT, value=o["value"])
         return dict(op="drop_rows", variant=VARIANT, value=o["value"], indices=c["indices"],
                     labels=[lab(x) for x in c["labels"]])
+    if c["kind"] == "sethist":
+        if "harness_exception" in o or "probe_error" in o:
+            return dict(op="sethistory", variant=VARIANT, set=None, calls=[])
+        calls = []
+        for i, ci, oi in sethist_calls(c, o):
+            r = _request_call(ci, oi)
+            prev = o["calls"][i - 1] if i else None
+            if prev is not None and c["calls"][i - 1]["policy"] == "drop" and prev.get("error") in NULLCHECK:
+                # what a drop call whose null check raised left in the set depends on the order of the checks (not modelled):
+                # the model continues from the observed content
+                r["set_override"] = o["before"][i]
+            calls.append(r)
+        return dict(op="sethistory", variant=VARIANT, set=c["original"], calls=calls)
     if c["kind"] == "history" and not ("harness_exception" in o or "probe_error" in o):
         calls = []
         for i, ci, oi in history_calls(c, o):
@@ -1294,6 +1460,15 @@ def agree(c, o, m):
         return None
     if c["kind"] == "unit":
         return _agree_unit(c, o, m)
+    if c["kind"] == "sethist":
+        if len(m.get("calls", [])) != len(c["calls"]):
+            return f"model answered {len(m.get('calls', []))} calls of {len(c['calls'])}"
+        for (i, ci, oi), mi in zip(sethist_calls(c, o), m["calls"]):
+            why = _agree_call(ci, oi, mi)
+            if why:
+                return (f"call {i + 1} of {len(c['calls'])} sharing ONE caller set object (`{ci['formula']}`, {ci['entry']}, "
+                        f"{ci['policy']}, set before the call {ci['caller']}): {why}")
+        return None
     if c["kind"] == "history":
         if len(m.get("calls", [])) != len(c["calls"]):
             return f"model answered {len(m.get('calls', []))} calls of {len(c['calls'])}"
@@ -1305,7 +1480,26 @@ def agree(c, o, m):
     return _agree_call(c, o, m)
 
 
+def _agree_set_after(c, o, m):
+    """the caller's set object after the call, also when the call raised. Under the drop policy a failing null check leaves
+    in the set what the factors checked BEFORE it added — their order is the iteration order of a Python set, so that
+    case is left to the oracle (bounds); everything else is compared exactly."""
+    if "set_after" not in m or "set_after" not in o or c["kind"] == "oor":
+        return None
+    oe, me = o.get("error"), m.get("error")
+    if c["policy"] == "drop" and c.get("na", "text") != "bad" and (oe or me):
+        if oe in NULLCHECK or me in NULLCHECK or oe is None or me is None:
+            return None
+    if o["set_after"] != m["set_after"]:
+        return (f"caller's set after the call{' (which raised ' + str(oe) + ')' if oe else ''}: impl {o['set_after']}, "
+                f"model {m['set_after']} (before the call: {c['caller']})")
+    return None
+
+
 def _agree_call(c, o, m):
+    why = _agree_set_after(c, o, m)
+    if why:
+        return why
     if c["kind"] == "oor" and "error" in o and "error" in m:
         return None  # positions outside the frame: which of IndexError / length mismatch comes first is not modelled
     if m.get("error") == "NotColumns":
@@ -1359,6 +1553,8 @@ def oracle(c, o):
         return None
     if c["kind"] == "unit":
         return _oracle_unit(c, o)
+    if c["kind"] == "sethist":
+        return oracle_sethist(c, o)
     if c["kind"] == "history":
         return oracle_history(c, o)
     return _oracle_call(c, o)
@@ -1397,9 +1593,62 @@ def oracle_history(c, o):
     return None
 
 
+def oracle_sethist(c, o):
+    """every call must obey the property with the set as it stood before it; a call that raised under the raise policy must
+    leave the object exactly as it was; and every call must do what the same call does when given a fresh copy of that
+    content (rows, labels, set afterwards, null error)"""
+    for i, ci, oi in sethist_calls(c, o):
+        head = (f"call {i + 1} of {len(c['calls'])} sharing ONE caller set object (`{ci['formula']}`, entry {ci['entry']}, "
+                f"na_action={ci['policy']}, the set held {ci['caller']} before the call; original {c['original']}; earlier calls: "
+                + "; ".join(f"`{k['formula']}` {k['policy']}" for k in c["calls"][:i]) + "): ")
+        why = _oracle_call(ci, oi)
+        if why:
+            return head + why
+        f = o["fresh"][i]
+        fe, se = f.get("error"), oi.get("error")
+        if (fe in NULLCHECK or se in NULLCHECK) and (fe in NULLCHECK) != (se in NULLCHECK):
+            return head + (f"with a fresh copy of the set the call {'raises ' + f.get('msg', '') if fe else 'succeeds'}, "
+                           f"with the shared object it {'raises ' + oi.get('msg', '') if se else 'succeeds'}")
+        if fe or se:
+            continue
+        for j, (a, b) in enumerate(zip(oi["parts"], f["parts"])):
+            for what in ("nrows", "kept", "index"):
+                if a[what] != b[what]:
+                    return head + f"part {j}: {what} is {a[what]}; the same call with a fresh copy of the set gives {b[what]}"
+        if oi["final"] != f["final"]:
+            return head + f"the shared set holds {oi['final']} after the call; a fresh copy ends as {f['final']}"
+    return None
+
+
+def _oracle_set_after(c, o):
+    """what a call may leave in the caller's set: nothing new under raise / ignore / an invalid policy (whether it raises or
+    not); under drop, when it raises, the caller's rows plus at most null rows"""
+    if c["caller"] is None or o.get("set_after") is None:
+        return None
+    before, after = sorted(c["caller"]), o["set_after"]
+    n = c["nrows"]
+    if c["policy"] in ("raise", "ignore") or c.get("na", "text") == "bad":
+        if after != before:
+            what = f"raised {o.get('msg')}" if o.get("error") else "returned"
+            return (f"{c['policy'] if c.get('na', 'text') != 'bad' else 'invalid'} policy: the call {what} and left {after} in the "
+                    f"caller's drop set, which held {before}: no row is removed on account of nulls, nothing may be added")
+    elif o.get("error"):
+        nulls = set()
+        for pr in o["probe"].values():
+            for f in pr["factors"].values():
+                nulls |= set(f["ind"])
+        if not set(before) <= set(after) or not set(after) <= set(before) | nulls:
+            return (f"drop policy: the call raised {o.get('msg')} and left {after} in the caller's drop set, which held {before}; "
+                    f"the rows with nulls are {sorted(nulls)}")
+    return None
+
+
 def _oracle_call(c, o):
     if c["kind"] != "call":
         return None
+    why = _oracle_set_after(c, o)
+    if why:
+        return why
     n, pol = c["nrows"], c["policy"]
     caller = set(c["caller"] or [])
     labels = [lab(x) for x in c["index"]["labels"]]
@@ -1486,6 +1735,8 @@ def classify(c, o, why):
         calls = [(c, o)]
     elif c["kind"] == "history" and "calls" in o:
         calls = [(ci, oi) for _, ci, oi in history_calls(c, o)]
+    elif c["kind"] == "sethist" and "calls" in o:
+        calls = [(ci, oi) for _, ci, oi in sethist_calls(c, o)]
     for ci, oi in calls:
         if (ci["policy"] == "drop" and ci.get("na", "text") != "bad" and oi.get("error") == "ConstantNull"
                 and "drop policy: the call raised" in str(why) and "Constant value is null" in str(why)
@@ -1507,7 +1758,10 @@ LEVEL_TEXT = (
     "as index (drop_exact, null_rows_exact, kept_rows_by_cells); the caller's set ends up as caller ∪ nulls = the rows removed; "
     "raise errors iff a null exists; ignore removes only the caller's rows; a call fails with a null-check error iff, in "
     "evaluation order, a factor fails its check while those before it pass, never under ignore (null_check_error_iff, for all "
-    "inputs); a string na_action is accepted exactly when it is a member's value (na_action_text); all encoders remove the "
+    "inputs); raise and ignore never put anything into the caller's set, whether the call returns or raises, for all inputs "
+    "and entry points (raise_and_ignore_leave_caller_set); a returning call leaves in the set what it reports "
+    "(caller_set_after_success); a failing drop call adds only null rows (drop_failure_adds_only_null_rows); a set object "
+    "handed to several calls is untouched by every non-drop call among them (shared_set_survives_non_drop_call); a string na_action is accepted exactly when it is a member's value (na_action_text); all encoders remove the "
     "same positions; generating the parts of a structured spec one by one (parts naming different materializers: two passes over "
     "one shared drop set) gives, for every policy, exactly what one materializer call over all parts gives, so every theorem "
     "above holds on EVERY entry point (per_part_calls); and for EVERY history of calls on one materializer object, from any cache content, each call gives what "
